@@ -51,6 +51,11 @@ def cell_values(dtype, n, rng, mode="distinct"):
         info = np.iinfo(dt)
         pool = [info.min, info.max, info.max // 2 + 1, 0, 1, 2, 3] + ([-1] if dt.kind == "i" else [])
         return np.array([rng.choice(pool) for _ in range(n)], dtype=dt)
+    if mode == "zeros":
+        # zeros of both signs (equal values, different bit patterns) for floats; zeros and ones for the other dtypes
+        if dt.kind == "f":
+            return np.array([rng.choice([0.0, -0.0]) for _ in range(n)], dtype=dt)
+        return np.array([rng.choice([0, 1]) for _ in range(n)], dtype=dt)
     if mode == "cancel":
         # values that cancel: x next to -x (signed / float), or wrap to zero together (unsigned: 1 and max); sums and products of
         # a row are 0 although the row holds non-zero cells
@@ -163,7 +168,7 @@ def shape_stats(shapes):
     }
 
 
-DERIVATIONS = [None, None, "select", "ufunc", "astype", "rev2", "mask_all", "list_all", "concat0"]
+DERIVATIONS = [None, None, "select", "ufunc", "astype", "rev2", "mask_all", "list_all", "concat0", "reduced"]
 
 
 def derive_ra(ra, how):
@@ -186,4 +191,16 @@ def derive_ra(ra, how):
         return ra[list(range(len(ra)))] if len(ra) else ra
     if how == "concat0":
         return np.concatenate([ra[:0], ra]) if len(ra) else ra
+    if how == "reduced":
+        # the same array after read-only operations (row reductions, a scan, a difference, a sort, printing): nothing may have changed
+        import warnings
+        with np.errstate(all="ignore"), warnings.catch_warnings():
+            warnings.simplefilter("ignore")
+            for f in (lambda: ra.sum(axis=-1), lambda: ra.mean(axis=-1), lambda: ra.any(axis=-1), lambda: np.diff(ra, axis=-1),
+                      lambda: ra.sort(axis=-1), lambda: str(ra), lambda: ra.max(axis=-1) if all(l > 0 for l in ra.lengths) else None):
+                try:
+                    f()
+                except Exception:
+                    pass
+        return ra
     raise ValueError(how)
